@@ -7,7 +7,8 @@ Inductive retval :=
 | RNone | RBool (b : bool) | RInt (z : Z) | RStr (s : str)
 | RFloat (nonzero : bool) (trunc : option Z)      (* float: truthiness, int() result (None: nan / inf) *)
 | RSeq (nonempty : bool)                          (* list / tuple / dict: int() raises TypeError *)
-| RObj.                                           (* any other object: truthy, int() raises TypeError *)
+| RObj.                                           (* an object WITHOUT __int__ / __index__ / __trunc__ / __bool__ / __len__ (object()): truthy, int()
+                                                     raises TypeError.  Fraction, Decimal, bytes, objects defining __int__ are not covered. *)
 Definition truthy (v : retval) : bool :=
   match v with
   | RNone => false | RBool b => b | RInt z => negb (z =? 0)%Z
@@ -106,7 +107,8 @@ Definition dec_listener (s : sexp) : option listener :=
   | L [A 2%Z; e] => option_map LFail (dec_exn e)
   | _ => None
   end.
-Definition run_C04 (s : sexp) : sexp :=
+(* the run of a command already selected, on the wire (the check's entry point run_C04 is in Model/RunLine.v) *)
+Definition run_C04_selected (s : sexp) : sexp :=
   match s with
   | L [c; d; ls; h] =>
     match dB c, dB d, dList dec_listener ls, dec_outcome h with
